@@ -13,6 +13,7 @@ let () =
              | Util.A m :: Util.A cmd :: args ->
                (match m with
                 | "codec" -> M_codec.handle cmd args
+                | "server" -> M_server.handle cmd args
                 | _ -> failwith ("unknown module " ^ m))
              | _ -> failwith "bad line"
            with
